@@ -75,6 +75,11 @@ type env struct {
 	scOwner  []int // model-side subconn numbering: owner child per created subconn
 	scReal   []*lbtest.RecSC
 	driver   int64
+	// in-flight NewSubConn (the child is blocked inside the channel's NewSubConn)
+	nsRelease chan struct{}
+	nsDone    chan error
+	nsChild   int
+	pendingSC *lbtest.RecSC
 }
 
 func newEnv() *env {
@@ -143,6 +148,20 @@ func (e *env) shutCountOf(children map[int]bool) (total, shut int) {
 }
 
 func (e *env) apply(st step, tr *vlib.Trace) {
+	if st.C > 0 && st.A != "aclose" {
+		if st.C > len(e.children) {
+			return
+		}
+		e.mu.Lock()
+		dead := e.closed[st.C]
+		e.mu.Unlock()
+		if dead {
+			return // the real scheduler closed this child earlier than the behaviour assumed
+		}
+	}
+	if st.A == "newsc_end" && e.nsRelease == nil {
+		return
+	}
 	switch st.A {
 	case "switch":
 		e.mu.Lock()
@@ -153,32 +172,47 @@ func (e *env) apply(st step, tr *vlib.Trace) {
 	case "update":
 		c := e.children[st.C-1]
 		c.cc.UpdateState(balancer.State{ConnectivityState: lbtest.StateOf(st.S), Picker: stubPicker{child: st.C}})
-		if len(st.Q) > 0 {
-			select {
-			case <-e.children[st.Q[0]-1].entered:
-			case <-time.After(2 * time.Second):
-			}
-		}
 		tr.Emit(map[string]any{"ev": "update", "c": st.C, "s": st.S, "obs": e.obs()})
 	case "aclose":
-		c := e.children[st.C-1]
-		select {
-		case <-c.entered:
-		case <-time.After(2 * time.Second):
+		// Which of the waiting closing goroutines holds currentMu is the Go scheduler's
+		// choice: release the child that actually entered Close() and log ITS id.
+		var c *stubChild
+		deadline := time.Now().Add(2 * time.Second)
+		for c == nil && time.Now().Before(deadline) {
+			e.mu.Lock()
+			for _, k := range e.children {
+				select {
+				case <-k.entered:
+					select {
+					case <-k.gate:
+					default:
+						if c == nil {
+							c = k
+						}
+					}
+				default:
+				}
+			}
+			e.mu.Unlock()
+			if c == nil {
+				time.Sleep(50 * time.Microsecond)
+			}
 		}
-		select {
-		case <-c.gate:
-		default:
-			close(c.gate)
+		if c == nil {
+			// nothing is closing although the specification says so: log the step as the
+			// specification numbered it; the observation will not show the child closed
+			tr.Emit(map[string]any{"ev": "aclose", "c": st.C, "obs": e.obs()})
+			return
 		}
+		close(c.gate)
 		settle(func() bool {
 			e.mu.Lock()
-			cl := e.closed[st.C]
+			cl := e.closed[c.id]
 			e.mu.Unlock()
-			tot, sh := e.shutCountOf(map[int]bool{st.C: true})
+			tot, sh := e.shutCountOf(map[int]bool{c.id: true})
 			return cl && tot == sh
 		})
-		tr.Emit(map[string]any{"ev": "aclose", "c": st.C, "obs": e.obs()})
+		tr.Emit(map[string]any{"ev": "aclose", "c": c.id, "obs": e.obs()})
 	case "newsc":
 		c := e.children[st.C-1]
 		sc, err := c.cc.NewSubConn([]resolver.Address{{Addr: "a"}}, balancer.NewSubConnOptions{StateListener: func(balancer.SubConnState) {}})
@@ -189,6 +223,49 @@ func (e *env) apply(st step, tr *vlib.Trace) {
 			_ = sc
 		}
 		tr.Emit(map[string]any{"ev": "newsc", "c": st.C, "ok": err == nil, "obs": e.obs()})
+	case "newsc_begin":
+		c := e.children[st.C-1]
+		entered := make(chan *lbtest.RecSC, 1)
+		e.nsRelease = make(chan struct{})
+		e.nsDone = make(chan error, 1)
+		e.nsChild = st.C
+		rel := e.nsRelease
+		e.cc.NewSubConnHook = func(sc *lbtest.RecSC) { entered <- sc; <-rel }
+		go func() {
+			_, err := c.cc.NewSubConn([]resolver.Address{{Addr: "a"}}, balancer.NewSubConnOptions{StateListener: func(balancer.SubConnState) {}})
+			e.nsDone <- err
+		}()
+		select {
+		case sc := <-entered:
+			e.scOwner = append(e.scOwner, st.C)
+			e.scReal = append(e.scReal, sc)
+			// the model numbers the sub-connection when the call ENDS; until then it is
+			// not part of the observation
+			e.scOwner = e.scOwner[:len(e.scOwner)-1]
+			e.scReal = e.scReal[:len(e.scReal)-1]
+			e.pendingSC = sc
+		case err := <-e.nsDone:
+			// rejected before reaching the channel: cannot happen when the spec's guard holds
+			e.nsDone <- err
+		case <-time.After(2 * time.Second):
+		}
+		e.cc.NewSubConnHook = nil
+		tr.Emit(map[string]any{"ev": "newsc_begin", "c": st.C, "obs": e.obs()})
+	case "newsc_end":
+		close(e.nsRelease)
+		var err error
+		select {
+		case err = <-e.nsDone:
+		case <-time.After(2 * time.Second):
+			err = fmt.Errorf("NewSubConn did not return")
+		}
+		if e.pendingSC != nil {
+			e.scOwner = append(e.scOwner, e.nsChild)
+			e.scReal = append(e.scReal, e.pendingSC)
+			e.pendingSC = nil
+		}
+		tr.Emit(map[string]any{"ev": "newsc_end", "c": e.nsChild, "ok": err == nil, "obs": e.obs()})
+		e.nsRelease = nil
 	case "close":
 		e.mu.Lock()
 		kids := append([]*stubChild(nil), e.children...)
@@ -208,6 +285,14 @@ func (e *env) apply(st step, tr *vlib.Trace) {
 }
 
 func finish(e *env) {
+	if e.nsRelease != nil {
+		close(e.nsRelease)
+		select {
+		case <-e.nsDone:
+		case <-time.After(2 * time.Second):
+		}
+		e.nsRelease = nil
+	}
 	e.mu.Lock()
 	kids := append([]*stubChild(nil), e.children...)
 	e.mu.Unlock()
@@ -289,10 +374,64 @@ func TestVerifC33Random(t *testing.T) {
 					pend = nChildren
 				}
 			case x == 1 && len(closingL) > 0:
-				c := closingL[0]
-				e.apply(step{A: "aclose", C: c}, tr)
-				closing = closing[1:]
-				dead[c] = true
+				e.apply(step{A: "aclose", C: closingL[0]}, tr)
+				// learn which child was really closed
+				var rest []int
+				for _, k := range closing {
+					e.mu.Lock()
+					cl := e.closed[k]
+					e.mu.Unlock()
+					if cl {
+						dead[k] = true
+					} else {
+						rest = append(rest, k)
+					}
+				}
+				closing = rest
+			case x == 3 && nSc < 40 && cur != 0 && rng.Intn(2) == 0:
+				// a child is superseded (or not) while it is inside the channel's NewSubConn
+				c := cur
+				if pend != 0 && rng.Intn(2) == 0 {
+					c = pend
+				}
+				e.apply(step{A: "newsc_begin", C: c}, tr)
+				switch rng.Intn(3) {
+				case 0:
+					if nChildren < 12 {
+						e.apply(step{A: "switch"}, tr)
+						nChildren++
+						last[nChildren] = "CONNECTING"
+						if pend != 0 {
+							dead[pend] = true
+						}
+						pend = nChildren
+					}
+				case 1:
+					var others []int
+					for _, d := range []int{cur, pend} {
+						if d != 0 && d != c {
+							others = append(others, d)
+						}
+					}
+					if len(others) > 0 {
+						d := others[rng.Intn(len(others))]
+						s := states[rng.Intn(4)]
+						swap := false
+						if d == cur && s != "READY" && pend != 0 {
+							swap = true
+						} else if d == pend && (s != "CONNECTING" || last[cur] != "READY") {
+							swap = true
+						}
+						if swap {
+							closing = append(closing, cur)
+							cur, pend = pend, 0
+						}
+						e.apply(step{A: "update", C: d, S: s, Q: closing}, tr)
+						last[d] = s
+					}
+				}
+				e.apply(step{A: "newsc_end"}, tr)
+				nSc++
 			case x == 2 && len(live) > 0 && nSc < 40:
 				c := live[rng.Intn(len(live))]
 				e.apply(step{A: "newsc", C: c}, tr)
